@@ -6,6 +6,7 @@ package rt
 import (
 	"encoding/json"
 	"fmt"
+	"os/exec"
 	"gopkg.in/yaml.v3"
 	"go/ast"
 	"go/parser"
@@ -101,6 +102,7 @@ type Tally struct {
 type obsEvent struct {
 	Unit   map[string]any `json:"unit"`
 	Built  bool           `json:"built"`
+	FmtOK  bool           `json:"fmtok"` // the generator formatted the file and gofmt leaves it unchanged
 	Res    []obsRes       `json:"res"`
 	GoType string         `json:"gotype"` // Go type of the field bound to property "x" ("" if none)
 	Consts []any          `json:"consts,omitempty"` // values of the string constants declared by the program
@@ -129,6 +131,7 @@ type Exec struct {
 	Consts  []string
 	HasConsts bool
 	Source  string // path of the emitted root.go
+	FmtBad  string // non-empty: the generator could not format the file / gofmt would change it
 }
 
 func devSet(devs []string) string {
@@ -380,6 +383,33 @@ func Execute(f *Family, sc *work.Scratch, tag string, units []*Unit, pack int) (
 			continue
 		}
 	}
+	for _, p := range progs {
+		if r := gres[p.id]; r != nil && r.OK {
+			for _, w := range r.Warnings {
+				if strings.Contains(w, "could not be formatted") {
+					for _, e := range byProg[p.id] {
+						e.FmtBad = firstLineOf(w)
+					}
+				}
+			}
+		}
+	}
+	if f.JudgeBuild {
+		if out, err := exec.Command("gofmt", "-l", filepath.Join(sc.Mod, "gen")).Output(); err == nil {
+			for _, l := range strings.Split(string(out), "\n") {
+				l = strings.TrimSpace(l)
+				if l == "" {
+					continue
+				}
+				id := filepath.Base(filepath.Dir(l))
+				for _, e := range byProg[id] {
+					if e.FmtBad == "" {
+						e.FmtBad = "gofmt would change the emitted file"
+					}
+				}
+			}
+		}
+	}
 	failed, err := sc.BuildAll("./gen/" + tagGlob(tag))
 	if err != nil {
 		return nil, err
@@ -402,6 +432,14 @@ func Execute(f *Family, sc *work.Scratch, tag string, units []*Unit, pack int) (
 			}
 		}
 		okProgs = append(okProgs, work.Prog{Key: p.id, PkgPath: "gen/" + p.id, Type: "RootJson"})
+	}
+	if f.Judge == "build" { // C01: nothing is executed
+		for _, e := range execs {
+			if e.Built {
+				e.Out = &work.RunOut{Types: map[string]string{}}
+			}
+		}
+		return execs, nil
 	}
 	// shard the runner so that link time stays small and shards build in parallel
 	const shard = 400
@@ -472,6 +510,16 @@ func Execute(f *Family, sc *work.Scratch, tag string, units []*Unit, pack int) (
 }
 
 func tagGlob(tag string) string { return "..." }
+
+func firstLineOf(s string) string {
+	if i := strings.IndexByte(s, '\n'); i >= 0 {
+		s = s[:i]
+	}
+	if len(s) > 200 {
+		s = s[:200]
+	}
+	return s
+}
 
 // YamlCalls: each document is decoded as JSON, as YAML given the JSON text itself (flow style) and as
 // YAML in block style (rendered by yaml.v3 from the generic value).
@@ -560,12 +608,15 @@ func unitSchema(u *Unit, ren abs.RefRename) (string, error) {
 // Observation builds the trace event of an executed unit (nil if the unit could not be observed).
 func Observation(e *Exec, judgeBuild bool) (*obsEvent, error) {
 	if judgeBuild && e.GenErr == "" && !e.Built && e.BuildErr != "" {
-		return &obsEvent{Unit: e.Unit.Raw, Built: false, Res: []obsRes{}}, nil
+		return &obsEvent{Unit: e.Unit.Raw, Built: false, FmtOK: e.FmtBad == "", Res: []obsRes{}}, nil
+	}
+	if e.Built && e.Out != nil && len(e.Out.Res) == 0 && !e.Out.Miss { // build-only observation
+		return &obsEvent{Unit: e.Unit.Raw, Built: true, FmtOK: e.FmtBad == "", Res: []obsRes{}}, nil
 	}
 	if !e.Built || e.Out == nil || e.Out.Miss || (len(e.Out.Res) != len(e.Texts) && len(e.Out.Res) != 3*len(e.Texts)) {
 		return nil, nil
 	}
-	ev := &obsEvent{Unit: e.Unit.Raw, Built: true}
+	ev := &obsEvent{Unit: e.Unit.Raw, Built: true, FmtOK: e.FmtBad == ""}
 	if e.HasConsts {
 		ev.Consts = []any{}
 		for _, c := range e.Consts {
